@@ -129,6 +129,10 @@ def check(tier, seed, replay=None):
             data = clean_stream(rnd, rnd.choice([1, 2, 3, 5, 8])) if rnd.random() < 0.7 else RL.small_stream(rnd, 80, noise=0.3)
             if rnd.random() < 0.15:
                 data = linebreak_stream(rnd)
+            elif rnd.random() < 0.12:
+                # bytes that some producers put in front of a text (a UTF-8 byte order mark, a lone lead byte): noise like any other, however it arrives
+                data = rnd.choice([b"\xef\xbb\xbf", b"\xef\xbb\xbf", b"\xef\xbb", b"\xff\xfe", b"\xef\xbb\xbf\xef\xbb\xbf"]) + data
+                policy = rnd.choice(["ignore", "stdout", "stderr"])
             recipes.append({"kind": "same", "policy": policy, "mode": mode, "onlyObj": only, "stdin": hexs(data),
                             "delivery": rnd.choice(["chunks", "chunks", "whole", "file", "fifo"]), "chunks": [rnd.choice([1, 2, 3, 5, 8, 13, 64]) for _ in range(7)]})
         for i in range(3 if quick else 60):
